@@ -198,7 +198,197 @@ func hasTokenFold(tokens []string, name string) bool {
 	return false
 }
 
+// ---- PAC configurations whose upstream proxies are easy to confuse ----
+
+// the proxies of a family, as PAC entries; every address is one of proxyAt / socksAt
+var (
+	famSameHost  = []string{"PROXY gw.test:3128", "PROXY gw.test:3129", "HTTP gw.test:8080", "HTTPS gw.test:3443", "SOCKS5 gw.test:1080"}
+	famSamePort  = []string{"PROXY gw.test:3128", "PROXY alt.test:3128", "HTTP proxya.test:3128", "PROXY [fd00::7]:3128"}
+	famSpellings = []string{"PROXY gw.test:3128", "PROXY GW.test:3128", "HTTP gw.test.:3128", "PROXY 10.9.8.7:3128", "PROXY 10.9.8.7:3129", "PROXY gw.test:3129"}
+	famTargets   = []string{"origin.test", "secure.test", "other.test", "fourth.test"}
+)
+
+func pacHostPort(entry string) (string, string) {
+	_, hp, _ := strings.Cut(entry, " ")
+	i := strings.LastIndex(hp, ":")
+	return strings.Trim(hp[:i], "[]"), hp[i+1:]
+}
+
+// genFamily draws 2–4 upstream proxies that share a host name and differ in port (or share the port and differ in host,
+// or are spellings of one address), a script that selects each of them for a target host of its own (the default answer is
+// one of them, DIRECT, or a proxy already in the table), and a credentials table that has an exact entry for some of
+// them, a wildcard entry (host:*, *:port, *:*) for others and nothing for the rest.
+func genFamily(r *core.Rand, cc *ccase) (targetsOf [][]string, label string) {
+	var pool []string
+	switch r.Intn(10) {
+	case 0, 1, 2, 3:
+		pool, label = famSameHost, "fam-same-host"
+	case 4, 5:
+		pool, label = famSamePort, "fam-same-port"
+	case 6, 7:
+		pool, label = famSpellings, "fam-spellings"
+	default:
+		label = "fam-mixed"
+		seen := map[string]bool{}
+		for _, l := range [][]string{famSameHost, famSamePort, famSpellings} {
+			for _, e := range l {
+				if !seen[e] {
+					seen[e] = true
+					pool = append(pool, e)
+				}
+			}
+		}
+	}
+	pool = append([]string(nil), pool...)
+	core.Shuffle(r, pool)
+	n := r.Range(2, 4)
+	if n > len(pool) {
+		n = len(pool)
+	}
+	members := pool[:n]
+	targets := append([]string(nil), famTargets...)
+	core.Shuffle(r, targets)
+	entry := func(i int) reqmodel.PacResult {
+		e := members[i]
+		if r.Chance(20) {
+			// only the first entry of an answer counts; what follows names a sibling or nothing
+			e += core.Pick(r, []string{"; DIRECT", "; " + members[(i+1)%n], ";"})
+		}
+		return reqmodel.PacResult{Return: e}
+	}
+	cc.Route.Base = "pac"
+	targetsOf = make([][]string, n)
+	inTable := n
+	if n == len(targets) || r.Chance(50) {
+		inTable = n - 1 // the last member is the script's default answer
+	}
+	for i := 0; i < inTable; i++ {
+		cc.Route.PacTable = append(cc.Route.PacTable, reqmodel.PacEntry{Host: targets[i], R: entry(i)})
+		targetsOf[i] = append(targetsOf[i], targets[i])
+	}
+	rest := targets[inTable:]
+	switch {
+	case inTable < n:
+		cc.Route.PacDefault = entry(n - 1)
+		targetsOf[n-1] = append(targetsOf[n-1], rest...)
+	case r.Chance(50):
+		k := r.Intn(n)
+		cc.Route.PacDefault = entry(k)
+		targetsOf[k] = append(targetsOf[k], rest...)
+	default:
+		cc.Route.PacDefault = reqmodel.PacResult{Return: core.Pick(r, []string{"DIRECT", ""})}
+		targetsOf = append(targetsOf, rest) // visits that go direct, between the visits of the proxies
+	}
+	// the credentials table
+	for try := 0; try < 4; try++ {
+		cc.Creds = nil
+		seen := map[string]bool{}
+		add := func(c reqmodel.Cred) {
+			if k := c.Host + "|" + c.Port; !seen[k] {
+				seen[k] = true
+				cc.Creds = append(cc.Creds, c)
+			}
+		}
+		for i, m := range members {
+			h, p := pacHostPort(m)
+			c := reqmodel.Cred{User: fmt.Sprintf("px%d-%d", i, r.Intn(1000)), Pass: core.Pick(r, []string{"pw", "p:w", "se cret", "x%y"}) + fmt.Sprint(r.Intn(100))}
+			switch r.Intn(8) {
+			case 0, 1, 2:
+				c.Host, c.Port = h, p
+			case 3:
+				c.Host, c.Port = h, "0"
+			case 4:
+				c.Host, c.Port = "*", p
+			case 5:
+				c.Host, c.Port = "*", "0"
+			default:
+				continue
+			}
+			add(c)
+		}
+		for _, c := range genCreds(r, false) {
+			if r.Chance(50) {
+				add(c)
+			}
+		}
+		core.Shuffle(r, cc.Creds)
+		distinct := map[string]bool{}
+		for _, m := range members {
+			h, p := pacHostPort(m)
+			if c := specMatch(cc.Creds, h, p); c != nil {
+				distinct[c.User+":"+c.Pass] = true
+			} else {
+				distinct[""] = true
+			}
+		}
+		if len(distinct) > 1 {
+			break
+		}
+	}
+	return targetsOf, label
+}
+
+// genFamilyCase: one instance, requests that visit the proxies of a family in every order — each one at least once in a
+// random order, then again in another order, plain / CONNECT / intercepted as the configuration allows.
+func genFamilyCase(r *core.Rand) *ccase {
+	cc := &ccase{Kind: "creds", Gate: r.Chance(25), MITM: r.Chance(35)}
+	targetsOf, label := genFamily(r, cc)
+	if r.Chance(15) {
+		cc.CRules = core.Pick(r, [][]string{{"X-Conn-Rule: yes"}, {"X-Conn-Rule: yes", "-X-Custom"}, {"User-Agent: connect-agent/1"}})
+	}
+	var order []int
+	for len(order) < 9 {
+		perm := make([]int, len(targetsOf))
+		for i := range perm {
+			perm[i] = i
+		}
+		core.Shuffle(r, perm)
+		order = append(order, perm...)
+	}
+	order = order[:r.Range(len(targetsOf)+1, 8)]
+	for _, k := range order {
+		if len(targetsOf[k]) == 0 {
+			continue
+		}
+		host := core.Pick(r, targetsOf[k])
+		id := fmt.Sprintf("c06-%d", idSeq.Add(1))
+		fs, lab := genClientFields(r, cc.Gate, id)
+		q := creq{Method: core.Pick(r, []string{"GET", "GET", "POST", "HEAD"}), Fields: fs, Label: lab + "," + label}
+		switch {
+		case cc.MITM && r.Chance(60):
+			q.Kind = "inner"
+			q.Authority = host + core.Pick(r, []string{"", ":443"})
+			if host == "secure.test" && r.Chance(30) {
+				q.Authority = "secure.test:8443"
+			}
+			q.Absolute = r.Chance(25)
+		case !cc.MITM && r.Chance(45):
+			q.Kind = "connect"
+			q.Method = "CONNECT"
+			q.Authority = host + ":443"
+			if host == "secure.test" && r.Chance(30) {
+				q.Authority = "secure.test:8443"
+			}
+		default:
+			q.Kind = "plain"
+			q.Authority = host + core.Pick(r, []string{"", ":80"})
+			if host == "origin.test" && r.Chance(30) {
+				q.Authority = "origin.test:8080"
+			}
+			q.Absolute = r.Chance(40)
+		}
+		if q.Method == "POST" {
+			q.Fields = append(q.Fields, rig.Field{Name: "Content-Length", Value: "0"})
+		}
+		cc.Requests = append(cc.Requests, q)
+	}
+	return cc
+}
+
 func genCase(r *core.Rand) *ccase {
+	if r.Chance(40) {
+		return genFamilyCase(r)
+	}
 	cc := &ccase{Kind: "creds", Creds: genCreds(r, false), Gate: r.Chance(35), MITM: r.Chance(35)}
 	genUpstream(r, &cc.Route)
 	if r.Chance(20) {
